@@ -278,7 +278,11 @@ pub fn execute(spec: &RunSpec, monitor: &mut dyn Monitor, keep_log: bool) -> Run
     }
     let mut errors = sh.errors.clone();
     if !errors.is_empty() {
-        violations.push(Violation::new("ANY", "transport", "json", errors.remove(0), world.steps));
+        let e = errors.remove(0);
+        // the cause is part of the classification key: a value nested deeper than the decoder's limit
+        // is one specific (known) defect of the JSON transport, any other failure is another
+        let cause = if e.contains("recursion limit exceeded") { "json-nesting-limit" } else { "json" };
+        violations.push(Violation::new("ANY", "transport", cause, e, world.steps));
     }
     RunResult {
         end,
